@@ -3,7 +3,8 @@
 Decided clauses (each is a panic some input reaches if the clause breaks):
   R1  the compiler never drops a live Register (Register::drop is `unreachable!`)            [= C03-R1]
   R2  always-on arithmetic panics are guarded: every MIR Assert of kind DivisionByZero / RemainderByZero /
-      Overflow(Div|Rem) / OverflowNeg in script-reachable modules has a divisor/operand that is a non-zero
+      Overflow(Div|Rem) / OverflowNeg, and every call of a core integer method that panics on a zero divisor
+      (wrapping_rem, wrapping_div, rem_euclid, div_euclid, …), in script-reachable modules has a divisor/operand that is a non-zero
       constant, comes from a never-zero producer, or is control-dependent on the excluding comparison
   R3  the result of [[Call]]/[[Construct]] is never treated as infallible (js_expect / expect / unwrap):
       every call can fail with a RuntimeLimitError at the limit boundary
@@ -26,6 +27,12 @@ EXPLANATION = (
     "instance is an assert/drop/call site; the verdict holds for all inputs because the guard is structural. Not "
     "decided: all other panics whose absence depends on run-time values; parser recursion depth.")
 
+# integer methods of core that still panic on a zero divisor (wrapping/overflowing only tame MIN / -1)
+STD_DIV_METHODS = {"wrapping_rem": "RemainderByZero", "wrapping_div": "DivisionByZero", "overflowing_rem": "RemainderByZero",
+                   "overflowing_div": "DivisionByZero", "rem_euclid": "RemainderByZero", "div_euclid": "DivisionByZero",
+                   "wrapping_rem_euclid": "RemainderByZero", "wrapping_div_euclid": "DivisionByZero",
+                   "overflowing_rem_euclid": "RemainderByZero", "overflowing_div_euclid": "DivisionByZero",
+                   "div_ceil": "DivisionByZero", "next_multiple_of": "RemainderByZero"}
 ARITH = ("DivisionByZero", "RemainderByZero", "Overflow(Div)", "Overflow(Rem)", "OverflowNeg")
 # modules whose code is reachable from source text (lexer/parser/compiler/VM/builtins); tooling is excluded
 NOT_SCRIPT_REACHABLE = (
@@ -186,23 +193,35 @@ def r2(db, rep):
             continue
         if f.id.startswith(NOT_SCRIPT_REACHABLE):
             continue
-        if not f.mentions('"t":"assert"') or not (f.mentions("ByZero") or f.mentions("Overflow(Div)") or
-                                                     f.mentions("Overflow(Rem)") or f.mentions("OverflowNeg")):
+        has_assert = f.mentions('"t":"assert"') and (f.mentions("ByZero") or f.mentions("Overflow(Div)") or
+                                                     f.mentions("Overflow(Rem)") or f.mentions("OverflowNeg"))
+        has_std_div = any(f.mentions(m) for m in STD_DIV_METHODS)
+        if not has_assert and not has_std_div:
             continue
         in_const = f.kind in ("static", "constant", "associated constant") or f.kind.startswith(("const", "static", "assoc"))
         for b in sorted(f.reachable()):
             t = f.blocks[b]["t"]
-            if t["t"] != "assert" or t["kind"] not in ARITH:
+            std_div = None
+            if t["t"] == "call" and has_std_div:
+                c_ = callee(t) or ""
+                m_ = c_.split("::")[-1]
+                if c_.startswith("core::num::") and m_ in STD_DIV_METHODS and len(t["args"]) >= 2 and "f32" not in c_ and "f64" not in c_:
+                    std_div = m_
+            if std_div is None and (t["t"] != "assert" or t["kind"] not in ARITH):
                 continue
             name = cname(f.id)
-            k = (name, t["kind"])
+            kind = STD_DIV_METHODS[std_div] if std_div else t["kind"]
+            k = (name, std_div or kind)
             ords[k] = ords.get(k, -1) + 1
-            key = f"{name}:{t['kind'].replace('(', '-').replace(')', '')}:{ords[k]}"
+            key = f"{name}:{(std_div or kind).replace('(', '-').replace(')', '')}:{ords[k]}"
             n += 1
-            kind = t["kind"]
             why = None
             # the value that must be excluded
-            if kind in ("DivisionByZero", "RemainderByZero"):
+            if std_div:
+                # integer methods of core that panic on a zero divisor although they never overflow
+                dv = t["args"][1]
+                bad = {"0"}
+            elif kind in ("DivisionByZero", "RemainderByZero"):
                 l = op_local(t["cond"])
                 d = f.single_def(l) if l is not None else None
                 dv = d[2]["a"] if d and d[1] != "t" and d[2].get("k") == "bin" and d[2]["op"] == "Eq" else None
@@ -309,6 +328,8 @@ def r2(db, rep):
             what = {"DivisionByZero": "division by zero", "RemainderByZero": "remainder by zero",
                     "Overflow(Div)": "MIN / -1 overflow", "Overflow(Rem)": "MIN % -1 overflow",
                     "OverflowNeg": "negation of MIN"}[kind]
+            if std_div:
+                kind = f"{std_div}() [{kind}]"
             rep.ob("R2", key, why is not None,
                    f"{name}: `{kind}` assert at {f.loc(b)} is not guarded — {what} panics (also in release builds) for "
                    f"some operand values", loc=f.loc(b))
